@@ -65,9 +65,9 @@ type wfile struct {
 	Data vt.B   `json:"data"`
 }
 type writeCase struct {
-	Pre   []wfile `json:"pre"`   // pre-existing files inside target (relative, clean)
-	PreD  []string `json:"pred"` // pre-existing directories inside target
-	Files []wfile `json:"files"` // archive entries
+	Pre   []wfile  `json:"pre"`   // pre-existing files inside target (relative, clean)
+	PreD  []string `json:"pred"`  // pre-existing directories inside target
+	Files []wfile  `json:"files"` // archive entries
 	// Via: "" = txtar.Write, "cmd-file" / "cmd-stdin" = the txtar-x command on the formatted archive
 	// (the entries are then whatever Parse makes of the formatted text).
 	Via string `json:"via,omitempty"`
